@@ -56,16 +56,22 @@ pub fn plan_for(case: &ContCase, created: Option<&CreatedCont>) -> Plan {
             }
             for (e, ec) in case.extra.iter().enumerate() {
                 for i in 0..ec.items.len() as u32 {
-                    addrs.push((e as u16 + 2, i));
+                    addrs.push((case.pack_id(e + 1), i));
                 }
             }
         }
     }
     addrs.push((1, n_main)); // past the count: None
-    addrs.push((case.extra.len() as u16 + 2, 0)); // unknown pack id
+    // unknown pack ids: one past the highest, and (when the ids are spread out) the holes between them
+    let top = case.pack_id(case.extra.len());
+    addrs.push((top + 1, 0));
+    let used: Vec<u16> = (0..=case.extra.len()).map(|pi| case.pack_id(pi)).collect();
+    for hole in (1..top).filter(|i| !used.contains(i)).take(3) {
+        addrs.push((hole, 0));
+    }
     addrs.sort();
     addrs.dedup();
-    let pack_ids = (0..case.extra.len() as u16 + 3).collect();
+    let pack_ids = (0..top + 2).collect();
     Plan { indexes, addrs, pack_ids, checks: true, bytes: true, manifest_free: true }
 }
 
@@ -358,7 +364,7 @@ pub fn expected_dump(case: &ContCase, created: &CreatedCont, plan: &Plan) -> Dum
             by_addr.insert((a.pack_id.into_u16(), a.content_id.into_u32()), case.extra[e].bytes_of(i));
         }
     }
-    let counts: BTreeMap<u16, u32> = std::iter::once((1u16, case.content.expected_count() as u32)).chain(case.extra.iter().enumerate().map(|(e, c)| (e as u16 + 2, c.items.len() as u32))).collect();
+    let counts: BTreeMap<u16, u32> = std::iter::once((1u16, case.content.expected_count() as u32)).chain(case.extra.iter().enumerate().map(|(e, c)| (case.pack_id(e + 1), c.items.len() as u32))).collect();
     for (pack, id) in &plan.addrs {
         let key = format!("content/{pack}/{id:06}");
         match by_addr.get(&(*pack, *id)) {
